@@ -1,74 +1,43 @@
-import GoRes.Model.Pattern
-import GoRes.Model.Req
+import GoRes.Model.SvcApi
 import GoRes.Model.Json
 import GoRes.Driver.Wire
 /-! Driver for the `svcapi` domain (C07): what the service publishes when driven through its
 own API — `With`/`Resource` on a resource id (with or without query part) followed by an event,
-`TokenEvent(WithID)`, `TokenReset`, `Reset`.
-
-Model: `parseRID` (split at the first `?`), handler lookup by the registered patterns, the
-validity checks (`isValidPart`, `isValidPath`) and the payload envelopes, as written in
-`service.go`/`resource.go`.  Specification: every publication has a documented subject that is
-a valid NATS publish subject, events are on the resource that was named, and the system events
-carry what the protocol asks for. -/
+`TokenEvent(WithID)`, `TokenReset`, `Reset`.  Model: `Model/SvcApi.lean`.  Specification: every
+publication has a documented subject that is a valid NATS publish subject, events are on the
+resource that was named, and the system events carry what the protocol asks for. -/
 namespace GoRes.Driver.SvcApi
-open GoRes GoRes.Wire
+open GoRes GoRes.Wire GoRes.SvcApi
 
-def patterns : List Str := [str "svc.model.$id", str "svc.static", str "svc.all.>", str "svc.m.$a.$b"]
+def encPub (p : Pub) : String := "P@" ++ encField p.subj ++ "@" ++ encField p.payload
 
-/-- `parseRID` -/
-def parseRID (rid : Str) : Str × Str :=
-  (rid.takeWhile (· ≠ 63), (rid.dropWhile (· ≠ 63)).drop 1)
+def encOut : Out → String
+  | .err => "err"
+  | .panic => "panic -"
+  | .pubs [] => "-"
+  | .pubs l => ";".intercalate (l.map encPub)
+  | .info n qy => "- name=" ++ encField n ++ " query=" ++ encField qy
 
-def q (s : Str) : Str := 34 :: s ++ [34]
-
-def jsonList (l : List Str) : Str := 91 :: (Req.obj.joinWith 44 (l.map q)) ++ [93]
-
-def encPub (subj payload : Str) : String := "P@" ++ encField subj ++ "@" ++ encField payload
-
-/-- model of one `with` operation -/
-def withOp (rid act : Str) : String :=
-  let (rname, query) := parseRID rid
-  if !(patterns.any (fun p => Pattern.matches p rname)) then "err" else
-  let ev (name payload : Str) := encPub (str "event." ++ rname ++ 46 :: name) payload
+def parseAct (act : Str) : Option Act :=
   let a := Str.show act
-  if sstarts a "custom:" then
-    let name := act.drop 7
-    if Req.reserved.contains name ∨ !Req.isValidPartB name then "panic -"
-    else ev name (str "{\"v\":1}")
-  else if a = "change" then ev (str "change") (str "{\"values\":{\"k\":1}}")
-  else if a = "reset" then encPub (str "system.reset") (str "{\"resources\":" ++ jsonList [rname] ++ [125])
-  else if a = "reaccess" then ev (str "reaccess") []
-  else if a = "create" then ev (str "create") []
-  else if a = "delete" then ev (str "delete") []
-  else if a = "query" then ev (str "query") (str "<inbox>")
-  else if a = "resource" then "- name=" ++ encField rname ++ " query=" ++ encField query
-  else "bad-op"
+  if sstarts a "custom:" then some (.custom (act.drop 7))
+  else if a = "change" then some .change else if a = "reset" then some .reset
+  else if a = "reaccess" then some .reaccess else if a = "create" then some .create
+  else if a = "delete" then some .delete else if a = "query" then some .query
+  else if a = "resource" then some .resource else none
 
-def tokenReset (subj : Str) (tids : List Str) : String :=
-  if subj.isEmpty ∨ !Pattern.isValidPath subj then "panic -"
-  else if tids.isEmpty then "-"
-  else encPub (str "system.tokenReset") (str "{\"subject\":" ++ q subj ++ str ",\"tids\":" ++ jsonList tids ++ [125])
+def withOpS (rid act : Str) : String := match parseAct act with
+  | some a => encOut (withOp patterns rid a)
+  | none => "bad-op"
 
-def tokenEvent (cid tid tok : Str) : String :=
-  if !Pattern.isValidPart cid then "panic -"
-  else if tok = str "unmarshalable" then "-"
-  else
-    let t := if tok = str "nil" then str "null" else tok
-    let tidPart := if tid = str "-" ∨ tid.isEmpty then [] else str "\"tid\":" ++ q tid ++ [44]
-    encPub (str "conn." ++ cid ++ str ".token") (123 :: tidPart ++ str "\"token\":" ++ t ++ [125])
+def tokenResetS (subj : Str) (tids : List Str) : String := encOut (tokenReset subj tids)
 
-def sreset (rs as : List Str) : String :=
-  if rs.isEmpty ∧ as.isEmpty then "-"
-  else
-    let a := if as.isEmpty then [] else [str "\"access\":" ++ jsonList as]
-    let r := if rs.isEmpty then [] else [str "\"resources\":" ++ jsonList rs]
-    encPub (str "system.reset") (123 :: Req.obj.joinWith 44 (a ++ r) ++ [125])
+def tokenEventS (cid tid tok : Str) : String :=
+  encOut (tokenEvent cid (if tid = str "-" then [] else tid)
+    (if tok = str "unmarshalable" then none else some (if tok = str "nil" then str "null" else tok)))
 
-/-! ### specification: conformance of what was published -/
+def sresetS (rs as : List Str) : String := encOut (sreset rs as)
 
-def validToken (t : Str) : Bool := !t.isEmpty && t.all (fun c => c > 32 ∧ c < 127 ∧ c ≠ 46 ∧ c ≠ 42 ∧ c ≠ 62 ∧ c ≠ 63)
-def validName (s : Str) : Bool := !s.isEmpty && (splitDots s).all validToken
 /-- a resource pattern as `system.reset` may list it: tokens, `*`, a final `>` -/
 def validResetPattern (s : Str) : Bool :=
   let toks := splitDots s
@@ -90,12 +59,13 @@ def strArray (j : Option Json.J) : Option (List Str) :=
 /-- is a publication conformant, given the resource name the caller named (if any)? -/
 def conformant (expectR : Option Str) (subj payload : Str) : Option String :=
   let toks := splitDots subj
-  if !validName subj then some "invalid-publish-subject"
+  if !natsSubject subj then some "invalid-publish-subject"
   else match toks with
   | ev :: rest =>
     if ev = str "event" then
       let rn := joinDots rest.dropLast
       if rest.length < 2 then some "event-subject-without-resource"
+      else if !validName rn then some "event-on-an-invalid-resource-name"
       else if expectR.isSome ∧ expectR ≠ some rn then some "event-on-a-resource-other-than-the-one-named"
       else none
     else if subj = str "system.reset" then
@@ -114,7 +84,7 @@ def conformant (expectR : Option Str) (subj payload : Str) : Option String :=
       match Json.parse payload with
       | some j => (match j.get? "subject", strArray (j.get? "tids") with
           | some (.str s), some tids =>
-            if !validName s then some "tokenReset-subject-is-not-a-concrete-subject"
+            if !natsSubject s then some "tokenReset-subject-is-not-a-concrete-subject"
             else if tids.isEmpty then some "tokenReset-without-token-ids" else none
           | _, _ => some "tokenReset-without-subject-and-tids")
       | none => some "tokenReset-payload-not-json"
@@ -145,7 +115,7 @@ def run (args : List Str) (impl : String) : String × String × String :=
     if c = str "with" then
       match rest with
       | [rid, act] =>
-      let m := withOp rid act
+      let m := withOpS rid act
       let (rname, _) := parseRID rid
       -- only valid resource ids are in scope of the specification
       let spec := if Pattern.isValidRID rid then judge (some rname) impl else "-"
@@ -155,13 +125,13 @@ def run (args : List Str) (impl : String) : String × String × String :=
     else if c = str "tokenreset" then
       match rest with
       | subj :: k :: tids =>
-        let m := tokenReset subj (tids.take (num k))
+        let m := tokenResetS subj (tids.take (num k))
         (m, judge none impl, "tokenreset-" ++ (if sstarts m "panic" then "panic" else if m = "-" then "none" else "pub"))
       | _ => ("bad-op", "-", "bad")
     else if c = str "tokenevent" then
       match rest with
       | [cid, tid, tok] =>
-        let m := tokenEvent cid tid tok
+        let m := tokenEventS cid tid tok
         (m, judge none impl, "tokenevent-" ++ (if sstarts m "panic" then "panic" else if m = "-" then "none" else "pub"))
       | _ => ("bad-op", "-", "bad")
     else if c = str "sreset" then
@@ -170,7 +140,7 @@ def run (args : List Str) (impl : String) : String × String × String :=
         let rs := r.take (num k)
         match r.drop (num k) with
         | k2 :: r2 =>
-          let m := sreset rs (r2.take (num k2))
+          let m := sresetS rs (r2.take (num k2))
           (m, judge none impl, "sreset-" ++ (if m = "-" then "none" else "pub"))
         | _ => ("bad-op", "-", "bad")
       | _ => ("bad-op", "-", "bad")
